@@ -1,5 +1,6 @@
 (* C17 — configured resource limits hold and reservations balance (manager-level part). *)
 From RainV Require Import Lib Ram RamProofs Cache CacheProofs Stree AddrList AddrListProofs.
+From RainV Require ConnLimit ConnLimitProofs.
 
 (* piece-buffer memory: for every interleaving of request / notify / cancel / release the reserved
    amount stays within [0, limit], equals the sum of held reservations, and the object count
@@ -28,3 +29,16 @@ Theorem C17_addrlist_bounded : forall c s src addrs, 0 <= maxItems c ->
   zlen (items (push c s src addrs)) <= maxItems c.
 Proof. exact push_bounded. Qed.
 Print Assumptions C17_addrlist_bounded.
+
+(* connections: for every history of address batches, handshake results, incoming connections, disconnects,
+   stops and starts, outgoing connections (handshaking + established) never exceed MaxPeerDial and incoming
+   ones never exceed MaxPeerAccept; a stop leaves none behind *)
+Theorem C17_connection_limits : forall md ma evs, 0 <= md -> 0 <= ma ->
+  Forall (fun e => match e with ConnLimit.CAdd n => 0 <= n | _ => True end) evs ->
+  ConnLimitProofs.CInv md ma (fold_left (ConnLimit.cstep md ma) evs ConnLimit.cl_init).
+Proof. exact ConnLimitProofs.connection_limits_hold. Qed.
+Print Assumptions C17_connection_limits.
+Theorem C17_stop_leaves_no_connection : forall md ma s,
+  ConnLimit.obs_cl (ConnLimit.cstep md ma s ConnLimit.CStop) = [0; 0; 0; 0; 0].
+Proof. exact ConnLimitProofs.stop_clears. Qed.
+Print Assumptions C17_stop_leaves_no_connection.
